@@ -90,6 +90,9 @@ func (p *Path) sinkFor(v Value) *Obj {
 	return o
 }
 
+// Take is the exported form of take.
+func (p *Path) Take(st *Obj, n *Lin) ([]Seg, bool) { return p.take(st, n) }
+
 // take consumes n bytes from a stream.
 func (p *Path) take(st *Obj, n *Lin) ([]Seg, bool) {
 	total := totalLen(st.Segs)
@@ -163,7 +166,7 @@ func (e *Engine) doCall(p *Path, fr *Frame, c *ssa.CallCommon, at ssa.Instructio
 	}
 	// dynamic call through a value
 	fv := e.operand(p, fr, c.Value)
-	if cl, ok := fv.(*Closure); ok {
+	if cl, ok := fv.(*Closure); ok && cl.Fn != nil {
 		fn := cl.Fn.(*ssa.Function)
 		return e.finish(e.callWith(p, fn, args, cl.Bindings, fr.depth+1), resT)
 	}
